@@ -55,7 +55,7 @@ def check_send_recv(ctx, P):
         "fiber_bounded_channel_receive": None,
     }
     for name, popf in recvs.items():
-        f = P.fn(name)
+        f = P.expanded(name, ("fiber_bounded_channel_try_receive",)) if popf is None else P.fn(name)   # receive may be written as a loop around try_receive
         o = ctx.ob("recv.recheck", f, "after every fiber_signal_wait (or yield) the queue is examined again before the function can return; only a "
                    "queue item is returned", "returning (or sleeping again) without re-checking after the wake-up loses the message that caused it")
         waits = f.calls(("fiber_signal_wait", "fiber_yield"))
@@ -78,6 +78,9 @@ def check_send_recv(ctx, P):
                 v = strip(r.kids[0])
                 vk = f.key(v, resolve=True)
                 src_ok = False
+                from rules import may_flow_from
+                if may_flow_from(f, v, lambda m: m in checks):
+                    src_ok = True
                 if v.k == "DeclRefExpr" and v.did:
                     for e in f.defs().get(v.did, []):
                         if e[2] is not None and any(m in checks for m in e[2].walk()):
@@ -172,7 +175,7 @@ def check_bounded(ctx, P):
     BC = "fiber_bounded_channel"
     c16.check_claim(ctx, P, P.fn("fiber_bounded_channel_send"), BC, "push", "bounded.send")
     for name in ("fiber_bounded_channel_receive", "fiber_bounded_channel_try_receive"):
-        f = P.fn(name)
+        f = P.expanded(name, ("fiber_bounded_channel_try_receive",)) if name.endswith("_receive") and not name.endswith("try_receive") else P.fn(name)
         o = ctx.ob("bounded.recv", f, "load high before low; the message is consumed (slot cleared, then low advanced by one with release or stronger) exactly when "
                    "the slot is non-NULL and high > low; only then is it returned", "advancing low for an unwritten slot skips a message a sender is about to write; "
                    "advancing before clearing lets a sender refill the slot and the clear then erases the new message")
